@@ -159,7 +159,8 @@ nng_str_sockaddr(const nng_sockaddr *sa, char *buf, size_t bufsz)
 		return (str_sa_abstract(&sa->s_abstract, buf, bufsz));
 	case NNG_AF_UNSPEC:
 	default:
-		return ("unknown");
+		snprintf(buf, bufsz, "unknown");
+		return (buf);
 	}
 }
 
